@@ -15,6 +15,7 @@ import TruthModel.Driver.C14
 import TruthModel.Driver.C13
 import TruthModel.Driver.C17
 import TruthModel.Driver.C03
+import TruthModel.Driver.C01
 /-
 Line-protocol driver: `truthmodel <property-id>` reads one S-expression case per line on stdin and
 prints the model's canonical result line for it.  Imports only the import-free model files so it
@@ -41,6 +42,7 @@ def handler (id : String) : Sexp → Sexp :=
   | "C17" => Driver.C17.handle
   | "C03" => Driver.C03.handle
   | "C16" => Driver.C03.handle
+  | "C01" => Driver.C01.handle
   | _ => fun _ => .atom "unknown-property"
 
 partial def loop (h : IO.FS.Stream) (out : IO.FS.Stream) (f : Sexp → Sexp) : IO Unit := do
